@@ -1,4 +1,4 @@
-from .common import pyvc_units
+from .common import pyvc_units, frame_unit, CONV_FILES, DISPLAY_FILES, GATE_FILES, RECK_FILES, SDK_FILES, TOMO_FILES
 
 LEVEL = "other"
 MODULES = ["vf.contracts.c_state", "vf.contracts.c_circuit_modes", "vf.contracts.c_parameters"]
@@ -14,4 +14,5 @@ def units(tier):
         u.append(dict(kind="func", mechanism="bounded runtime contract (C)", name=f"bounded:Circuit.add[{k}/{NSHARDS}]", module="vf.tasks.t_add", func="unit", args=dict(shard=k, nshards=NSHARDS)))
     u.append(dict(kind="func", mechanism="bounded runtime contract (C)", name="bounded:rejected-calls", module="vf.tasks.t_frames", func="unit", args=dict(which="rejected")))
     u.append(dict(kind="func", mechanism="bounded runtime contract (C)", name="bounded:arguments-unchanged", module="vf.tasks.t_frames", func="unit", args=dict(which="arguments")))
+    u.append(frame_unit("sdk+converter+reck+display", SDK_FILES + CONV_FILES + RECK_FILES + DISPLAY_FILES + TOMO_FILES + GATE_FILES))
     return u
